@@ -428,6 +428,7 @@ func cmdCheck(args []string) int {
 			err     error
 		}
 		var cexs []*cexRec
+		var retryRes *symex.HarnessResult
 		seen := map[string]bool{}
 		for _, v := range res.Violations {
 			key := v.Kind + "|" + v.Label + "|" + v.Pos
@@ -480,6 +481,27 @@ func cmdCheck(args []string) int {
 				ev.Notes = append(ev.Notes, fmt.Sprintf("UNCONFIRMED-CEX (depends on uninterpreted hash/curve values; native outcome %s): %s %q", c.outcome, v.Kind, v.Label))
 				fmt.Fprintf(os.Stderr, "UNCONFIRMED-CEX harness=%s %s %q (native outcome %s)\n", h.Name, v.Kind, v.Label, c.outcome)
 			default:
+				if !v.UsesUF {
+					// A counterexample without uninterpreted symbols that the real build does not reproduce means the
+					// symbolic run and the native run disagree. Before giving up, explore the harness once more: an
+					// exploration glitch (seen once, c02_topk on a saturated machine, never reproduced) does not repeat,
+					// a wrong encoding does. Only a clean second exploration without this counterexample discards it.
+					if retryRes == nil {
+						retryRes = symex.Explore(prog, entry, h.config(), opts)
+					}
+					again := len(retryRes.Inconclusive()) > 0
+					for _, v2 := range retryRes.Violations {
+						if v2.Kind == v.Kind && v2.Label == v.Label && v2.Pos == v.Pos {
+							again = true
+						}
+					}
+					if !again {
+						note := fmt.Sprintf("DISCARDED-CEX: %s %q at %s (values %v) was not reproduced natively (outcome %s) and a second exploration of the harness (%d paths, %d obligations, all discharged) does not contain it", v.Kind, v.Label, v.Pos, v.Model, c.outcome, retryRes.Paths, retryRes.Obligations)
+						ev.Notes = append(ev.Notes, note)
+						fmt.Fprintln(os.Stderr, note)
+						break
+					}
+				}
 				tag := "SPURIOUS-CEX"
 				if v.UsesUF {
 					tag = "UNCONFIRMED-CEX"
